@@ -17,6 +17,7 @@ func init() {
 
 func runC17(r *Report) {
 	p := r.P
+	r.Rule("handoff-unbuffered", 1, "the memstore hand-off channel is unbuffered, so a key never becomes temporarily unreadable merely because a flush is in progress")
 	const rv = "validate-before-log"
 	r.Rule(rv, 3, "every key/value byte slice that reaches the memstore mutation is checked for emptiness before the WAL append; the empty edge returns ErrEmptyKeyValue without reaching the append")
 	lf := loggingFuncs(p)
@@ -216,6 +217,9 @@ func runC17(r *Report) {
 		}
 	}
 	ruleLogBeforeApply(r)
+	ruleWalReclaim(r)
+	ruleUnbuffered(r, "handoff-unbuffered")
+	ruleHandoff(r)
 	// the string flavour's own validation returns the same sentinel
 	if fn := p.Func("simpledb.DB.Put"); fn != nil {
 		key := rd + "/simpledb.DB.Put/same-sentinel"
